@@ -27,33 +27,38 @@ def tri(n):
 
 
 def held_checks(recs, W, k, names, nsteps, res, case, where=''):
-    """(1) per rank and layer: second-order bytes > 0 iff gradient worker; memory_usage() equals the bytes walked."""
+    """(1) per rank and layer: second-order bytes > 0 iff gradient worker; memory_usage() equals the bytes walked - at step
+    boundaries and, from the second iteration on, in the middle of an iteration (after the backward passes, before step(),
+    when batch buffers of an accumulation window or of the no-hook mode are alive)."""
     for r in range(W):
-        for st in range(nsteps):
-            if recs[r]['held'][st] is None:
-                continue
+        states = [(f'after step {st}', recs[r]['held'][st], recs[r]['mem'][st]) for st in range(nsteps) if recs[r]['held'][st] is not None]
+        states += [(f'inside iteration {st} (after backward, before step)', h, pm) for st, (h, pm) in sorted(recs[r].get('held_mid', {}).items()) if int(st) >= 1]
+        for when, hs, pm in states:
             total_rep = 0
+            if when.startswith('inside'):
+                res.count('mid_iteration_states_checked')
             for n in names:
-                h = recs[r]['held'][st][n]
+                h = hs[n]
                 held, rep = h['held'], h['reported']
                 second = sum(v for a, v in held.items() if a not in FACT + BATCH + ('_grad',))
                 isgw = recs[r]['assignment'][n]['is_grad_worker']
                 res.count('held_checks')
                 if (second > 0) != isgw:
-                    return res.violation(where + f'rank {r}, layer {n}, after step {st}: holds {second} bytes of second-order data {[a for a in held if a not in FACT + BATCH]} '
+                    return res.violation(where + f'rank {r}, layer {n}, {when}: holds {second} bytes of second-order data {[a for a in held if a not in FACT + BATCH]} '
                                          f'but is_grad_worker={isgw} (W={W}, k={k})', case, rank=r, layer=n)
                 fac = sum(held.get(a, 0) for a in FACT)
                 bat = sum(held.get(a, 0) for a in BATCH)
                 rep_fac = rep.get('a_factors', 0) + rep.get('g_factors', 0)
                 rep_bat = rep.get('a_batch', 0) + rep.get('g_batch', 0)
                 rep_inv = rep.get('a_inverses', 0) + rep.get('g_inverses', 0)
+                if bat:
+                    res.count('states_with_live_batch_buffers')
                 if (rep_fac, rep_bat, rep_inv) != (fac, bat, second):
-                    return res.violation(where + f'rank {r}, layer {n}, after step {st}: memory_usage reports factors/batch/second-order = {(rep_fac, rep_bat, rep_inv)} bytes, '
+                    return res.violation(where + f'rank {r}, layer {n}, {when}: memory_usage reports factors/batch/second-order = {(rep_fac, rep_bat, rep_inv)} bytes, '
                                          f'tensors actually held = {(fac, bat, second)} ({held})', case, rank=r, layer=n)
                 total_rep += sum(rep.values())
-            pm = recs[r]['mem'][st]
             if pm.get('total') != total_rep or sum(v for kk, v in pm.items() if kk != 'total') != total_rep:
-                return res.violation(where + f'rank {r}, after step {st}: preconditioner.memory_usage() = {pm}, sum over layers = {total_rep}', case, rank=r)
+                return res.violation(where + f'rank {r}, {when}: preconditioner.memory_usage() = {pm}, sum over layers = {total_rep}', case, rank=r)
     return True
 
 
@@ -77,6 +82,8 @@ def run_case(rng, res, idx, tier):
                 history=history, record=['held'])
     # the memory query (which flushes and waits) happens at the last boundary and at a random subset of the others
     spec['held_steps'] = sorted({nsteps - 1} | {t for t in range(nsteps) if rng.random() < 0.4})
+    # ... and in the middle of some iterations (after the backward passes, before step())
+    spec['held_mid_steps'] = sorted(t for t in range(1, nsteps) if rng.random() < 0.4)
     policy = simdist.POLICIES[idx % len(simdist.POLICIES)]
     case = dict(idx=idx, W=W, k=k, cfg=cfg, steps=nsteps, policy=policy, load_at=load_at)
     run = scenario.run(spec, W, seed=rng.randrange(10 ** 6), policy=policy, stress=(idx % 5 == 0), deliver_prob=rng.choice([0.05, 0.3, 0.6, 1.0]))
